@@ -215,7 +215,9 @@ class ElfWriter:
 
         # Write sections contained in images:
         for image in self.obj.images:
-            self.align_to(self.page_size)
+            # p_offset must be congruent to p_vaddr modulo p_align:
+            padding = (image.address - self.f.tell()) % self.page_size
+            self.f.write(bytes(padding))
             file_offset = self.f.tell()
 
             for section in image.sections:
